@@ -7,6 +7,7 @@ bit-generator state), a counting variational model, and the real SparseDrugCombo
 """
 import copy
 import itertools
+import logging
 
 import numpy as np
 
@@ -43,7 +44,7 @@ RULE = (
     "the burn-in and the thinning skip states; a stream case is non-trivial (distinct key (seed,n_chains,index)) when "
     "n_chains >= 2"
 )
-_SEEDS_Q = [0, 1, 12, 2**32 - 1]
+_SEEDS_Q = [0, 1, 12, 2**32 - 1, 2**40 + 3]
 _SEEDS_T = [0, 1, 2, 3, 5, 7, 12, 42, 255, 256, 65535, 65536, 2**31 - 1, 2**31, 2**32 - 1, 2**32,
             2**63 - 1, 2**64 - 1, 123456789, 987654321]
 BOUNDS = {
@@ -57,7 +58,8 @@ BOUNDS = {
 ASSUMPTIONS = [
     "the relative order of reset_model and set_rng is not stated: don't-care; a reset after the last recorded state is not judged either",
     "the counting model starts 'dirty' (1000 steps on its counter) so that a missing reset is visible; states are identified by the number of steps since the last reset",
-    "the generator handed to the model is identified by a copy of its bit-generator state taken inside set_rng; if several are handed, the last one handed before the first step counts",
+    "the generator handed to the model is identified by a copy of its bit-generator state taken inside set_rng (if several are handed, the last one handed before the first step counts) and, when the model steps, by the state of that same generator object at the model's first step - the stream the chain really works with",
+    "environment dimension: the package logger at its default level and at DEBUG (what --verbose sets); identical triples must give identical streams in both",
     "stream identity / separation is decided on the first 1000 raw 64-bit outputs (identical sequence; pairwise disjoint output sets, which covers every relative lag < 1000); true non-overlap of the infinite streams is numpy's SeedSequence.spawn guarantee - trusted, not checked",
     "how the stream is derived from (seed, n_chains, index) is not stated and not compared with any reference derivation; nothing is demanded between different seeds or different n_chains",
     "variational models: 'asked for exactly n samples once' and 'leaving the collection complete' are judged; whether they are reset and which generator they get is don't-care except that an identical call must hand an identical generator",
@@ -133,6 +135,9 @@ class CountingMCMC(_Recording, MCMCModel):
         self.since_reset = 0
 
     def step(self):
+        if self.total == 0 and isinstance(self._rng, np.random.Generator):
+            # the stream the model actually works with: state of its generator when it is first asked to step
+            self.log.append(("rng_at_first_step", copy.deepcopy(self._rng.bit_generator.state)))
         self.since_reset += 1
         self.total += 1
         self.log.append(("step",))
@@ -166,6 +171,12 @@ class ProbeSparse(SparseDrugCombo):
                             type(rng).__name__))
         super().set_rng(rng)
 
+    def step(self):
+        if not hasattr(self, "at_first_step"):
+            r = self.rng
+            self.at_first_step = copy.deepcopy(r.bit_generator.state) if isinstance(r, np.random.Generator) else None
+        return super().step()
+
 
 _SPACE = None
 
@@ -187,10 +198,33 @@ def first_outputs(state):
 
 
 # ------------------------------------------------------------------ single calls
+class _Sink(logging.Handler):
+    def emit(self, record):
+        record.getMessage()  # format the message as a real handler would, keep nothing
+
+
 def _call(model, n, p):
     holder = ThetaHolder(n_thetas=n)
-    S.sample(model=model, results=holder, seed=p["seed"], n_chains=p["n_chains"], chain_index=p["index"],
-             n_burnin=p["b"], thin=p["t"], progress_bar=False)
+    lg = logging.getLogger("batchie")
+    saved = (lg.level, lg.propagate)
+    sink = None
+    if p.get("debug"):
+        # what `--verbose` does (batchie.log_config): the package logger at DEBUG
+        sink = _Sink()
+        lg.addHandler(sink)
+        lg.setLevel(logging.DEBUG)
+        lg.propagate = False
+        disabled = logging.root.manager.disable
+        logging.disable(logging.NOTSET)  # the harness silences logging globally (mc.env); not for this call
+    try:
+        S.sample(model=model, results=holder, seed=p["seed"], n_chains=p["n_chains"], chain_index=p["index"],
+                 n_burnin=p["b"], thin=p["t"], progress_bar=False)
+    finally:
+        if sink is not None:
+            logging.disable(disabled)
+            lg.removeHandler(sink)
+            lg.setLevel(saved[0])
+            lg.propagate = saved[1]
     return holder
 
 
@@ -259,6 +293,11 @@ def run_mcmc_stub(p, col):
         elif e[0] == "set_rng":
             handed.append((e[1], e[2], steps_seen))
     state = _handed_state(col, handed, 0, case, "mcmc")
+    at_step = [e[1] for e in log if e[0] == "rng_at_first_step"]
+    if state is not None and at_step:
+        if not np.array_equal(first_outputs(at_step[0]), first_outputs(state)):
+            col.count("generator state moved between hand-over and the first step (judged through the same-triple comparison)")
+        state = at_step[0]
     return None if state is None else first_outputs(state)
 
 
@@ -282,6 +321,8 @@ def run_mcmc_sparse(p, col):
     state = _handed_state(col, handed, 0, case, "mcmc")
     if state is None:
         return None
+    if getattr(model, "at_first_step", None) is not None:
+        state = model.at_first_step
     out = first_outputs(state)
     now = model.rng
     if isinstance(now, np.random.Generator) and not np.array_equal(first_outputs(now.bit_generator.state), out):
@@ -328,7 +369,8 @@ def _judge_same(col, ref, ref_p, out, p):
     if not np.array_equal(ref, out):
         col.violation("C17|rng|differs-for-identical-triple",
                       f"(seed={p['seed']}, n_chains={p['n_chains']}, index={p['index']}): the handed generator differs between "
-                      f"{ref_p['model']} b={ref_p['b']} t={ref_p['t']} n={ref_p['n']} and {p['model']} b={p['b']} t={p['t']} n={p['n']}",
+                      f"{ref_p['model']} b={ref_p['b']} t={ref_p['t']} n={ref_p['n']} and {p['model']} b={p['b']} t={p['t']} n={p['n']}"
+                      f"{' with the batchie logger at DEBUG' if p.get('debug') else ''}",
                       {"kind": "same-triple", "a": ref_p, "b": p})
 
 
@@ -391,6 +433,11 @@ def run_item(item, col, tier):
             for (b, t, n) in B["real_model_schedules"]:
                 p = {"model": "sparse", "seed": seed, "n_chains": c, "index": i, "b": b, "t": t, "n": n}
                 _judge_same(col, ref, ref_p, run_mcmc_sparse(p, col), p)
+            # the same triple with the package logger at DEBUG (--verbose): the chain must work with the same stream
+            for model, (b, t, n) in (("stub", (0, 1, 1)), ("stub", (2, 2, 2)), ("sparse", (1, 2, 2))):
+                p = {"model": model, "seed": seed, "n_chains": c, "index": i, "b": b, "t": t, "n": n, "debug": True}
+                _judge_same(col, ref, ref_p, _run(p, col), p)
+                col.nontriv("debug-logging", seed, c, i, model)
             per_index[i] = (ref, ref_p)
             if ref is not None:
                 col.outcome("stream", ref[:4].tobytes())
@@ -409,7 +456,7 @@ def replay(case, col):
     if kind == "vi":
         run_vi({k_: case[k_] for k_ in ("seed", "n", "n_chains", "index", "b", "t")}, col)
     elif kind in ("mcmc-stub", "mcmc-sparse"):
-        p = {k_: case[k_] for k_ in ("model", "seed", "n_chains", "index", "b", "t", "n")}
+        p = {k_: case[k_] for k_ in ("model", "seed", "n_chains", "index", "b", "t", "n", "debug") if k_ in case}
         _run(p, col)
     elif kind == "same-triple":
         _judge_same(col, _run(case["a"], col), case["a"], _run(case["b"], col), case["b"])
